@@ -5,6 +5,7 @@ package main
 import (
 	"fmt"
 	"go/token"
+	"os"
 	"sort"
 	"strings"
 )
@@ -136,6 +137,9 @@ func (ex *Exec) branch(c *Term, pos token.Pos, fr *frame) bool {
 	}
 	p := ex.path
 	if v, ok := p.known[c.id]; ok {
+		if os.Getenv("GOSYM_BRDEBUG") != "" {
+			fmt.Fprintf(os.Stderr, "BRANCH known=%v term#%d op=%d at %s\n", v, c.id, c.Op, ex.loc(pos))
+		}
 		return v
 	}
 	if ex.ifcDepth > 0 {
